@@ -25,7 +25,10 @@ const ALPHABET: [&str; 8] = ["\0", "a", "Z", "0", " ", "é", "€", "😀"];
 
 /// Deterministic input text: a pure function of (shape, len, salt).
 pub fn make_input(shape: i64, len: i64, salt: i64) -> String {
-    let len = len.clamp(0, 24) as usize;
+    // lengths of 1000 and more are taken as they are (single-byte characters only, so that the
+    // byte length is exactly `len`): counters narrower than usize wrap at 255/256 and 65535/65536
+    let big = len >= 1000;
+    let len = if big { len.min(if cfg!(miri) { 1200 } else { 140_000 }) } else { len.clamp(0, 24) } as usize;
     let mut x = (salt as u64).wrapping_mul(0x9E37_79B9_7F4A_7C15) ^ 0xABCDEF;
     let mut next = move || {
         x ^= x << 13;
@@ -33,7 +36,7 @@ pub fn make_input(shape: i64, len: i64, salt: i64) -> String {
         x ^= x << 17;
         x
     };
-    let mut chars: Vec<&str> = (0..len).map(|_| ALPHABET[1 + (next() % 7) as usize]).collect();
+    let mut chars: Vec<&str> = (0..len).map(|_| ALPHABET[1 + (next() % if big { 4 } else { 7 }) as usize]).collect();
     match shape.rem_euclid(6) {
         0 => chars.clear(),                          // empty
         1 => {}                                      // NUL-free
@@ -53,6 +56,15 @@ pub fn make_input(shape: i64, len: i64, salt: i64) -> String {
         }
     }
     chars.concat()
+}
+
+/// for messages: the first characters and the byte length of long texts
+fn brief(s: &str) -> String {
+    if s.len() <= 48 {
+        format!("{:?}", s)
+    } else {
+        format!("{:?}... ({} bytes)", s.chars().take(32).collect::<String>(), s.len())
+    }
 }
 
 fn prefix(s: &str) -> &str {
@@ -90,7 +102,7 @@ fn check_value(i: usize, s: &Slot, when: &str) -> VResult {
         }
     }
     let got: &str = s.v.as_ref();
-    vcheck!(got == s.model, "cstr.readback_mismatch", site, "{}: slot {} (made by {}) reads back {:?}, the input prefix is {:?}", when, i, s.made_by, String::from_utf8_lossy(got.as_bytes()), s.model);
+    vcheck!(got == s.model, "cstr.readback_mismatch", site, "{}: slot {} (made by {}) reads back {}, the input prefix is {}", when, i, s.made_by, brief(&String::from_utf8_lossy(got.as_bytes())), brief(&s.model));
     let d: &str = &s.v;
     vcheck!(d == s.model, "cstr.readback_mismatch", site, "{}: Deref disagrees with the model", when);
     Ok(())
@@ -201,7 +213,7 @@ fn apply(st: &mut State, step: &Step, counts: &mut Vec<&'static str>) -> Result<
             let (Some(x), Some(y)) = (st.slots[a].as_ref(), st.slots[b].as_ref()) else { return Ok("Eq noop".into()) };
             let got = x.v == y.v;
             let want = x.model == y.model;
-            vcheck!(got == want, "cstr.eq_mismatch", "PartialEq", "{:?} == {:?} gave {}", x.model, y.model, got);
+            vcheck!(got == want, "cstr.eq_mismatch", "PartialEq", "{} == {} gave {}", brief(&x.model), brief(&y.model), got);
             if want {
                 counts.push("probe.eq_true");
                 vcheck!(h(&x.v) == h(&y.v), "cstr.hash_mismatch", "Hash", "equal values hash differently");
@@ -238,7 +250,7 @@ fn apply(st: &mut State, step: &Step, counts: &mut Vec<&'static str>) -> Result<
             let c = CString::new(prefix(&input)).expect("no interior NUL by construction");
             let r: ReprCStr = ReprCStr::from(c.as_c_str());
             let got: &str = r.as_ref();
-            vcheck!(got == prefix(&input), "cstr.readback_mismatch", "ReprCStr::from(&CStr)", "reads {:?}, C string was {:?}", got, prefix(&input));
+            vcheck!(got == prefix(&input), "cstr.readback_mismatch", "ReprCStr::from(&CStr)", "reads {}, C string was {}", brief(got), brief(prefix(&input)));
             let copy = r;
             vcheck!(copy == r && h(&copy) == h(&r) && format!("{}", r) == prefix(&input), "cstr.eq_mismatch", "ReprCStr", "copy of a ReprCStr differs");
             // two borrowed strings compare by their text: same first character, different rest
@@ -306,11 +318,11 @@ impl Engine for CStrEngine {
             let s1 = rng.below(pool as u64) as i64;
             match op {
                 "FromStr" | "FromString" | "FromBytes" => {
-                    let len = *rng.pick(&[0, 1, 2, 3, 7, 8, 15, 16, 24]);
+                    let len = if rng.chance(1, 16) { *rng.pick(&[1000, 4095, 4096, 65534, 65535, 65536, 65537, 131072]) } else { *rng.pick(&[0, 1, 2, 3, 7, 8, 15, 16, 24]) };
                     p.push(t, op, &[s0, rng.range(0, 5), len, rng.range(0, 1000)]);
                 }
                 "Clone" | "Eq" | "CloneFrom" => p.push(t, op, &[s0, s1]),
-                "FromCStr" => p.push(t, op, &[0, rng.range(0, 24), rng.range(0, 1000)]),
+                "FromCStr" => p.push(t, op, &[0, if rng.chance(1, 12) { *rng.pick(&[65535, 65536, 65537, 100_000]) } else { rng.range(0, 24) }, rng.range(0, 1000)]),
                 _ => p.push(t, op, &[s0]),
             }
         }
